@@ -18,13 +18,20 @@ def mkReq (method uri host body tag : Bytes) (h : Hdrs) : Req :=
     hdrs := sortHdrs (h.filter (fun kv => kv.1 != hostKey))
     body := body, tag := tag }
 
+/-- what a request target written in the file denotes: `(authority, path+query)`.  An origin-form target (`/path?query`)
+has no authority (Host then comes from the header lines); an absolute-form target `http://host[:port]/path?query` is
+sent to `/path?query` with Host = its authority, whatever `[Host: …]` lines say (`parseURL`: what `net/url` does on the
+class of targets the model knows; outside that class the Spec is not evaluated, `targetsKnown`) -/
+def targetParts (u : Bytes) : Bytes × Bytes := (parseURL u).getD ([], u)
+
 /-- one pass over the entries: a header entry applies to the entries after it; the provider's `headers` option
 `cfg` only fills in what the file did not define -/
 def expReqs (f : Fmt) (cfg : Hdrs) : Hdrs → List Item → List Req
   | _, [] => []
   | h, .hdr k v :: r => expReqs f cfg (hset h k v) r
   | h, .req u t b :: r =>
-    (if f = .uripost then mkReq postBytes u [] b t (mergeCfg h cfg) else mkReq getBytes u [] [] t (mergeCfg h cfg))
+    (if f = .uripost then mkReq postBytes (targetParts u).2 (targetParts u).1 b t (mergeCfg h cfg)
+     else mkReq getBytes (targetParts u).2 (targetParts u).1 [] t (mergeCfg h cfg))
       :: expReqs f cfg h r
   | h, .frame _ _ :: r => expReqs f cfg h r
 
@@ -43,9 +50,10 @@ def expAmmo (f : Fmt) : Hdrs → List Item → List Ammo
       body := if f = .uripost then b else [], tag := t, hdrs := h } :: expAmmo f h r
   | h, .frame _ _ :: r => expAmmo f h r
 
-/-- all request targets of the entries are in the class where the model knows `net/url` -/
+/-- all request targets of the entries are in the class where the model knows `net/url`: origin-form targets of
+unreserved / sub-delim / `%XX` bytes, and `http://host[:port]` followed by such a target -/
 def targetsKnown (items : List Item) : Bool :=
-  items.all fun it => match it with | .req u _ _ => uriOK u | _ => true
+  items.all fun it => match it with | .req u _ _ => (parseURL u).isSome | _ => true
 
 /-- http/json: the request for one decoded entity -/
 def entityReq (cfg : Hdrs) (host method uri tag body : Bytes) (headers : List (Bytes × Bytes)) : Req :=
